@@ -17,7 +17,7 @@ CONSTANTS
   AbortChecked = %(abort)s
   Fallback = %(fallback)s
   defaultInitValue = defaultInitValue
-INVARIANTS ValueExact WritesClean EntriesTrue OneBest NoPanic InfoOrdered AllDepths PartialSound
+INVARIANTS ValueExact NodeContract WritesClean EntriesTrue OneBest NoPanic InfoOrdered AllDepths PartialSound
 PROPERTY Terminates
 CHECK_DEADLOCK FALSE
 '''
@@ -54,7 +54,7 @@ def run(prop, tier, cov):
             cov['states'] = cov.get('states', 0) + res['distinct']
             cov['transitions'] = cov.get('transitions', 0) + res['generated']
             cov['mc']['Search: ' + name] = {'distinct_states': res['distinct'], 'generated': res['generated'],
-                                            'properties': 'ValueExact WritesClean EntriesTrue OneBest NoPanic InfoOrdered AllDepths PartialSound Terminates'}
+                                            'properties': 'ValueExact NodeContract WritesClean EntriesTrue OneBest NoPanic InfoOrdered AllDepths PartialSound Terminates'}
         else:
             m = re.search(r'Invariant (\w+) is violated', res['out'])
             cov['mc']['Search: ' + name] = 'counterexample found: %s' % (m.group(1) if m else 'violation')
